@@ -130,6 +130,24 @@ func ResolveLoad(u *ssa.UnOp) ssa.Value {
 	return nil
 }
 
+func blockReaches(a, b *ssa.BasicBlock) bool {
+	seen := map[*ssa.BasicBlock]bool{}
+	stack := append([]*ssa.BasicBlock(nil), a.Succs...)
+	for len(stack) > 0 {
+		x := stack[len(stack)-1]
+		stack = stack[:len(stack)-1]
+		if x == b {
+			return true
+		}
+		if seen[x] {
+			continue
+		}
+		seen[x] = true
+		stack = append(stack, x.Succs...)
+	}
+	return false
+}
+
 // localStructField: the value of field f of the local struct variable al when it is written exactly once —
 // directly, or by a whole-struct copy from another such variable (the result struct of an inlined helper) — and
 // the variable's address does not escape.
@@ -150,7 +168,12 @@ func localStructField(al *ssa.Alloc, f int, depth int, use ssa.Instruction) ssa.
 			}
 			return false
 		}
-		return st.Block().Dominates(use.Block())
+		if st.Block().Dominates(use.Block()) {
+			return true
+		}
+		// a write on one branch before the read (`if c { s.f = v }; use(s.f)`; the other branch leaves the zero
+		// value): the write can reach the read and the read cannot reach the write
+		return blockReaches(st.Block(), use.Block()) && !blockReaches(use.Block(), st.Block())
 	}
 	if _, isStruct := al.Type().(*types.Pointer).Elem().Underlying().(*types.Struct); !isStruct {
 		return nil
